@@ -90,6 +90,8 @@ def evaluate(ctx, results, verdicts, spec_by_id):
                  sample={"history_tail": h[-3:], "serializable": ser_spec, "why": why, "to_proto": fl.get("ser1"), "from_proto": fl.get("deser"),
                          "iso": None if vm is None else vm["iso"]})
         st["serializable" if ser_spec else "not-serializable:" + why] += 1
+        if fl.get("devcfg_written_below_ir11"):
+            st["observation:device-configurations-of-subgraph-nodes-written-below-ir11"] += 1
         if ser_spec and fl.get("ser1") != "ok":
             ctx.violation("C03:serializable:to_proto-" + fl.get("ser1", "?"), dict(detail0, message="to_proto raised on a serializable model: " + fl.get("ser1_msg", "")))
             continue
@@ -183,11 +185,14 @@ def run(ctx):
                 "node order with a subgraph using a value produced later; a value that is input+initializer+output listed twice, None inputs, a node "
                 "without outputs, empty-named outputs, values without type or shape; shadowing and sibling subgraphs; an outer value as subgraph output) "
                 "x every edit history of the bound over the focused alphabet, and checks on every state the design theorems Serializable => "
-                "Iso(Deser(Ser)), Ser independent of its own effect, effect = tensor names only, Deser result consistent. Every emitted state (a seeded "
-                "1/3 sample in the quick tier) is rebuilt with real objects through the public API, decorated (IR version 8..13, opset imports, doc "
-                "strings, 11 attribute kinds, nested types, 0-2 model-local functions, device configuration + shard), deep-snapshotted, serialized "
+                "Iso(Deser(Ser)), Ser independent of its own effect, effect = tensor names only, Deser result consistent. Every emitted state (in the quick "
+                "tier a seeded 1/3 sample taken after ordering the states by a hash of the state, i.e. independent of TLC's output order) is rebuilt with real objects through the public API, decorated (IR version 8..13, opset imports, doc "
+                "strings, 11 attribute kinds, nested types, 0-2 model-local functions, 8 variants of node device configurations: nodes with 0-3 entries, "
+                "declared and dangling (configuration removed without cascade) ones in both orders, with/without sharding specs and pipeline stages, in "
+                "the main graph, a subgraph and a function), deep-snapshotted, serialized "
                 "twice, snapshotted again, the proto compared with the specification's Ser, deserialized; TLC (SerdeIRTrace) then evaluates "
-                "Serializable and Iso on the observed (original, deserialized) object graphs and on every function; payloads are compared in Python. "
+                "Serializable and Iso (which includes every node device configuration entry in order, sharded values bound by identity, from IR version "
+                "11) on the observed (original, deserialized) object graphs and on every function; payloads are compared in Python. "
                 "distinct_nontrivial = distinct (last two edits, Serializable clause failing, to_proto outcome, from_proto outcome, Iso) classes.")
     ctx.assumptions = [
         "Serializable (SerdeIR.tla) delimits the quantifier: tree-shaped nesting, referenced values named, one definition per name and scope, uses "
